@@ -875,8 +875,19 @@ class Programs(Batch):
 
 @findings.predicate("jalr_target_not_wrapped")
 def _p_jalr_wrap(trace, violation):
-    """D1: JALR whose rs1 + imm leaves [0, 2^32) in five-stage mode."""
-    for ins in trace.get("prog", []):
-        if ins[0] == "JALR":
-            return True
-    return False
+    """D1: the (minimised) program executes, in single-cycle mode, a JALR whose rs1 + imm lies
+    outside [0, 2^32) - the only situation in which the unrepaired alu_compute differed."""
+    hit = []
+
+    def hook(sim, ins, i):
+        if ins is not None and ins[0] == "JALR" and not hit:
+            v = int(sim.state.register_file.registers[ins[2]]) + ins[3]
+            if not (0 <= v < 2**32):
+                hit.append(i)
+
+    try:
+        dc, ic = _caches(trace)
+        run_ref(trace, dc, ic, hook=hook)
+    except Exception:  # noqa: BLE001
+        return False
+    return bool(hit)
